@@ -5,7 +5,7 @@
     write is one row whose tree is obtained by reparent (kept), by CommitRewriter::rebase, or
     by MergedTree::merge of given terms. *)
 From Verif Require Import Base.Prelude Model.Merge Model.TreeMerge Model.TreeCase Model.Rebase Model.C09.
-From Verif Require Import Proofs.TreeValue Proofs.C07 Proofs.C08 Proofs.C09.
+From Verif Require Import Proofs.TreeValue Proofs.C07 Proofs.C08 Proofs.C09 Proofs.MergeIdentities.
 
 Section Statements.
   Context (accept : bool) (content_merge : list N -> option N).
@@ -27,6 +27,15 @@ Section Statements.
   Theorem C09_squash_partial_top_formal : forall d x s : tree,
     rebase_tree accept content_merge [x] [d] [s; x; d] = [s].
   Proof. exact (squash_partial_source_formal accept content_merge). Qed.
+
+  (** Both identities for a conflicted destination / selection of any arity. *)
+  Theorem C09_squash_top_general : forall (d : list tree) (s : tree), Nat.odd (length d) = true ->
+    merged_tree_merge accept content_merge [d; d; [s]] = [s].
+  Proof. intros d s Hd. exact (proj2 (base_identity_general accept content_merge s d Hd)). Qed.
+  Theorem C09_squash_partial_top_formal_general : forall (x d : list tree) (s : tree),
+    Nat.odd (length x) = true -> Nat.odd (length d) = true ->
+    rebase_tree accept content_merge x d (flatten [[s]; x; d]) = [s].
+  Proof. exact (squash_source_formal_general accept content_merge). Qed.
 
   Context (tab : list ctree).
 
@@ -124,6 +133,8 @@ Example C09_nonvacuous :
 Proof. vm_compute. repeat split. eexists. repeat split. Qed.
 
 Print Assumptions C09_squash_top.
+Print Assumptions C09_squash_top_general.
+Print Assumptions C09_squash_partial_top_formal_general.
 Print Assumptions C09_squash_partial_top_formal.
 Print Assumptions C09_rebase_keeps.
 Print Assumptions C09_descendants_keep.
